@@ -157,6 +157,59 @@ fn in_window(q: i32, r: i32, bits: u32) -> bool {
     -h <= d && d < h
 }
 
+/// the 22 words of a field tuple on a `build` line (and appended to a `flarm` line by a failing round trip)
+fn field_words(f: &Fields) -> String {
+    format!(
+        "{} {} {} {} {} {} {} {} {} {} {} {} {} {} {} {} {} {} {} {} {} {}",
+        f.addr,
+        f.is_icao as u8,
+        f.vs,
+        f.spare0 & 7,
+        f.stealth as u8,
+        f.no_track as u8,
+        (f.spare0 >> 3) & 1,
+        f.gps,
+        f.actype,
+        f.lat_e7,
+        f.alt,
+        f.lon_e7,
+        f.spare2,
+        f.factor,
+        f.ns[0],
+        f.ns[1],
+        f.ns[2],
+        f.ns[3],
+        f.ew[0],
+        f.ew[1],
+        f.ew[2],
+        f.ew[3]
+    )
+}
+
+fn fields_from_words(rest: &[&str]) -> Option<Fields> {
+    let v: Vec<i64> = rest.iter().filter_map(|x| x.parse().ok()).collect();
+    if v.len() != 22 || rest.len() != 22 {
+        return None;
+    }
+    Some(Fields {
+        addr: v[0] as u32,
+        is_icao: v[1] != 0,
+        vs: v[2] as u32,
+        spare0: (v[3] as u32 & 7) | (v[6] as u32 & 1) << 3,
+        stealth: v[4] != 0,
+        no_track: v[5] != 0,
+        gps: v[7] as u32,
+        actype: v[8] as u32,
+        lat_e7: v[9] as i32,
+        alt: v[10] as u32,
+        lon_e7: v[11] as i32,
+        spare2: v[12] as u32,
+        factor: v[13] as u32,
+        ns: [v[14] as u8, v[15] as u8, v[16] as u8, v[17] as u8],
+        ew: [v[18] as u8, v[19] as u8, v[20] as u8, v[21] as u8],
+    })
+}
+
 /// One case: run the real decoder, record the correspondence line, judge by the oracle.
 /// `truth` = the field tuple a Spec-built packet was made from.
 fn case(out: &mut Out, class: &str, ts: u32, reference: [f64; 2], msg: &[u8], truth: Option<&Fields>) {
@@ -168,6 +221,11 @@ fn case(out: &mut Out, class: &str, ts: u32, reference: [f64; 2], msg: &[u8], tr
         Some(Ok(f)) => show(f),
     };
     out.case(&line, &imp);
+    // a failure of the round trip is replayed from the op line WITH the field tuple the packet was built from
+    let tline = match truth {
+        Some(t) => format!("{line} {}", field_words(t)),
+        None => line.clone(),
+    };
     match &r {
         None => {
             out.stat(&format!("{class}:panic"));
@@ -177,7 +235,7 @@ fn case(out: &mut Out, class: &str, ts: u32, reference: [f64; 2], msg: &[u8], tr
             out.stat(&format!("{class}:err"));
             if let Some(_t) = truth {
                 if reference[0].is_finite() && reference[1].is_finite() {
-                    out.fail("built-rejected", &line, &format!("packet built by the reference encoder was rejected: {e}"));
+                    out.fail("built-rejected", &tline, &format!("packet built by the reference encoder was rejected: {e}"));
                 }
             }
         }
@@ -242,7 +300,7 @@ fn case(out: &mut Out, class: &str, ts: u32, reference: [f64; 2], msg: &[u8], tr
                     out.stat(&format!("{class}:lon-outside-window"));
                 }
                 if !bad.is_empty() {
-                    out.fail("roundtrip", &line, &format!("{} (fields {:?})", bad.join("; "), t));
+                    out.fail("roundtrip", &tline, &format!("{} (fields {:?})", bad.join("; "), t));
                 }
             }
         }
@@ -253,31 +311,7 @@ fn case(out: &mut Out, class: &str, ts: u32, reference: [f64; 2], msg: &[u8], tr
 /// Cross-check of the two independent encoders: the Lean *Spec* builder (`build` op of the driver) must
 /// produce the very packet this file's reference encoder produces (trailer 00 00).
 fn build_case(out: &mut Out, ts: u32, f: &Fields) {
-    let line = format!(
-        "build {ts} {} {} {} {} {} {} {} {} {} {} {} {} {} {} {} {} {} {} {} {} {} {}",
-        f.addr,
-        f.is_icao as u8,
-        f.vs,
-        f.spare0 & 7,
-        f.stealth as u8,
-        f.no_track as u8,
-        (f.spare0 >> 3) & 1,
-        f.gps,
-        f.actype,
-        f.lat_e7,
-        f.alt,
-        f.lon_e7,
-        f.spare2,
-        f.factor,
-        f.ns[0],
-        f.ns[1],
-        f.ns[2],
-        f.ns[3],
-        f.ew[0],
-        f.ew[1],
-        f.ew[2],
-        f.ew[3]
-    );
+    let line = format!("build {ts} {}", field_words(f));
     out.case(&line, &hex(&build(ts, f, &[0, 0])));
     out.stat("build:spec-vs-reference-encoder");
 }
@@ -297,28 +331,19 @@ pub fn one(out: &mut Out, line: &str) {
                 None => out.notes.push(format!("bad replay line: {line}")),
             }
         }
-        ["build", ts, rest @ ..] if rest.len() == 22 => {
-            let v: Vec<i64> = rest.iter().filter_map(|x| x.parse().ok()).collect();
-            let (Ok(ts), true) = (ts.parse::<u32>(), v.len() == 22) else {
+        ["flarm", ts, lat, lon, _fin, _rlat, _rlon, h, rest @ ..] if rest.len() == 22 => {
+            let (Ok(ts), Ok(lat), Ok(lon), Some(f), Some(m)) =
+                (ts.parse::<u32>(), u64::from_str_radix(lat, 16), u64::from_str_radix(lon, 16), fields_from_words(rest), unhex(h))
+            else {
                 out.notes.push(format!("bad replay line: {line}"));
                 return;
             };
-            let f = Fields {
-                addr: v[0] as u32,
-                is_icao: v[1] != 0,
-                vs: v[2] as u32,
-                spare0: (v[3] as u32 & 7) | (v[6] as u32 & 1) << 3,
-                stealth: v[4] != 0,
-                no_track: v[5] != 0,
-                gps: v[7] as u32,
-                actype: v[8] as u32,
-                lat_e7: v[9] as i32,
-                alt: v[10] as u32,
-                lon_e7: v[11] as i32,
-                spare2: v[12] as u32,
-                factor: v[13] as u32,
-                ns: [v[14] as u8, v[15] as u8, v[16] as u8, v[17] as u8],
-                ew: [v[18] as u8, v[19] as u8, v[20] as u8, v[21] as u8],
+            case(out, "replay", ts, [f64::from_bits(lat), f64::from_bits(lon)], &m, Some(&f));
+        }
+        ["build", ts, rest @ ..] if rest.len() == 22 => {
+            let (Ok(ts), Some(f)) = (ts.parse::<u32>(), fields_from_words(rest)) else {
+                out.notes.push(format!("bad replay line: {line}"));
+                return;
             };
             build_case(out, ts, &f);
         }
